@@ -28,6 +28,27 @@ BACKENDS = [
 ]
 
 
+def _str_const(ck, mod, cls, e, depth=3):
+    """The string an expression denotes: a literal, a module-level constant, a class-level constant (`self.X` / `cls.X` /
+    `Class.X`, also of a base class)."""
+    if e is None or depth <= 0:
+        return None
+    if A.const_str(e) is not None:
+        return A.const_str(e)
+    if isinstance(e, ast.Name):
+        v = mod.assigns.get(e.id)
+        return _str_const(ck, mod, cls, v, depth - 1) if v is not None else None
+    if isinstance(e, ast.Attribute) and isinstance(e.value, ast.Name):
+        owner = cls if e.value.id in ("self", "cls") else mod.classes.get(e.value.id)
+        for c in (ck.repo.mro(owner) if owner is not None else []):
+            for st in c.node.body:
+                if isinstance(st, ast.Assign) and any(isinstance(t, ast.Name) and t.id == e.attr for t in st.targets):
+                    return _str_const(ck, c.module, c, st.value, depth - 1)
+                if isinstance(st, ast.AnnAssign) and isinstance(st.target, ast.Name) and st.target.id == e.attr and st.value is not None:
+                    return _str_const(ck, c.module, c, st.value, depth - 1)
+    return None
+
+
 def _doc_options(module):
     return re.findall(r"^\* (\w+) - ", module.docstring, flags=re.M)
 
@@ -577,8 +598,23 @@ def _dump_entries(fa: FA):
             for t in tg:
                 if isinstance(t, ast.Name) and t.id in names:
                     from_mapping(st.value if isinstance(st.value, (ast.Dict, ast.Call)) else expanded(st.value, st), st, cond(st), "literal")
-                if isinstance(t, ast.Subscript) and isinstance(t.value, ast.Name) and t.value.id in names and A.const_str(t.slice) is not None:
-                    entries.append(_Entry(A.const_str(t.slice), st.value, cond(st), st, "store"))
+                if isinstance(t, ast.Subscript) and isinstance(t.value, ast.Name) and t.value.id in names:
+                    if A.const_str(t.slice) is not None:
+                        entries.append(_Entry(A.const_str(t.slice), st.value, cond(st), st, "store"))
+                    elif isinstance(t.slice, ast.Name):
+                        # `for key, value in (("a", self.a), ("b", self.b)): ... d[key] = value`
+                        loop = fa.enclosing(st, ast.For)
+                        while loop is not None and not any(isinstance(x, ast.Name) and x.id == t.slice.id for x in ast.walk(loop.target)):
+                            loop = fa.enclosing(loop, ast.For)
+                        if loop is not None and isinstance(loop.iter, (ast.Tuple, ast.List)):
+                            tgt = loop.target.elts if isinstance(loop.target, (ast.Tuple, ast.List)) else [loop.target]
+                            pos = [i for i, x in enumerate(tgt) if isinstance(x, ast.Name) and x.id == t.slice.id]
+                            for item in loop.iter.elts:
+                                parts = item.elts if isinstance(item, (ast.Tuple, ast.List)) and isinstance(loop.target, (ast.Tuple, ast.List)) else [item]
+                                if pos and pos[0] < len(parts) and A.const_str(parts[pos[0]]) is not None:
+                                    inner = fa.enclosing(st, ast.If)
+                                    entries.append(_Entry(A.const_str(parts[pos[0]]), parts[1] if len(parts) > 1 else None,
+                                                          inner is not None and fa.inside(inner, loop) or cond(loop), st, "store"))
         elif isinstance(st, ast.Expr) and isinstance(st.value, ast.Call) and isinstance(st.value.func, ast.Attribute) \
                 and isinstance(st.value.func.value, ast.Name) and st.value.func.value.id in names:
             c = st.value
@@ -1087,7 +1123,7 @@ def check(ck):
                           "constructor argument %s has no documented configuration option" % p, A.loc(init, init.node))
         # registry
         reg = [n for n in ast.walk(mod.tree) if isinstance(n, ast.Call) and A.call_attr(n) == "register" and len(n.args) == 2 and A.norm(n.args[1]) == clsname]
-        rname = A.const_str(reg[0].args[0]) if len(reg) == 1 else None
+        rname = _str_const(ck, mod, cls, reg[0].args[0]) if len(reg) == 1 else None
         sup = []
         if init is not None:
             sup = [c for c in A.body_calls(init.node) if A.call_attr(c) == "__init__" and isinstance(A.call_recv(c), ast.Call) and A.call_attr(A.call_recv(c)) == "super"]
@@ -1096,8 +1132,8 @@ def check(ck):
             binit = next((c.methods["__init__"] for c in ck.repo.mro(cls)[1:] if "__init__" in c.methods), None)
             first = [p for p in binit.params if p != "self"][0] if binit is not None and len(binit.params) > 1 else "storage_type"
             a0 = A.arg_or_kw(sup[0], 0, first)
-            sname = A.const_str(a0) if a0 is not None else None
-        tvals = {A.const_str(e.value) if e.value is not None else None for e in entries if e.key == "type"}
+            sname = _str_const(ck, mod, cls, a0) if a0 is not None else None
+        tvals = {_str_const(ck, mod, cls, e.value) for e in entries if e.key == "type"}
         tname = next(iter(tvals)) if len(tvals) == 1 else None
         # the dump describes the backend AS IT IS: when it starts from the configuration the backend
         # was given (self.config), every option a constructor argument can override has to be
